@@ -246,6 +246,11 @@ def prop_setter(ch, ctx):
     # open interval: several heat-capacity correlations end exactly at 500 K / 250 K and jump by ~1e-6 relative there
     Tstar = ch.float('T*', 250.5, 499.5)
     T0 = ch.float('T0', 250.5, 499.5)
+    if mixture_kind == 'PR':
+        # keep 40 K away from the ends of the range on which monotonicity is verified: just outside it the EOS
+        # enthalpy turns (found by the thorough tier: H(250.5 K) is reached again at 220 K, a legitimate second root)
+        Tstar = 290.0 + (Tstar - 250.5) * 180.0 / 249.0
+        T0 = 290.0 + (T0 - 250.5) * 180.0 / 249.0
     s = vs.build(sp)
     tmo.settings.set_thermo(s.thermo)
     # Liquid heat-capacity correlations diverge towards the critical point (hexane Tc = 507.6 K): a liquid row is only
